@@ -1,4 +1,4 @@
-import SimplicityModel.IterDag
+import SimplicityModel.IterCert
 import SimplicityModel.Driver.Util
 /-!
 driver verbs of C18.  One line = one DAG, one sharing policy, one iterator:
@@ -64,7 +64,10 @@ def parse (pol : String) (n : String) (rest : List String) : Option Input := do
   let tbl ← match pol with
     | "none" => some (Array.replicate n none)
     | "ptr" => some ((List.range n).map some).toArray
-    | "hash" => some (classify nodes)
+    | "hash" =>
+      -- the class table is checked (`PO.cert_sound`); a table that fails makes the op `bad-op`
+      let tbl := classify nodes
+      if certB nodes tbl then some tbl else none
     | "key" => do
       let ks ← all? (optNat? · "-") (rest.drop n)
       if ks.length ≠ n then none
